@@ -4,7 +4,7 @@ import vlib
 from props import limits_common as L
 from props import c07
 
-TRANSLATORS = ["limits_wiring"]
+TRANSLATORS = ["limits_wiring", "error_consts"]     # error_consts: the fixed error objects (C08_consts_pinned)
 MODELS = ["respsize", "reqlimit"]
 BINS = {"release": ["respsize", "srvlimits"], "debug": ["respsize"]}
 DEBUG_IN_QUICK = True
